@@ -390,9 +390,11 @@ func (c *Conn) Read(p []byte) (int, error) {
 			tc = tm.C
 		}
 		c.mu.Unlock()
+		byClock := false
 		select {
 		case <-c.rwake:
 		case <-tc:
+			byClock = true
 		case <-c.net.S.AbortCh():
 			if tm != nil {
 				tm.Stop()
@@ -402,6 +404,24 @@ func (c *Conn) Read(p []byte) (int, error) {
 		}
 		if tm != nil {
 			tm.Stop()
+		}
+		if !byClock {
+			// Woken because another goroutine moved the read deadline into the past
+			// (net/http's abortPendingRead does that to its background reader): return
+			// at once, exactly as a Read that starts after the deadline change does -
+			// whether this goroutine had already reached the wait or not must not
+			// make a difference to the schedule.
+			c.mu.Lock()
+			ready := len(c.rbuf) > 0 || c.closed || c.broken != nil || c.rEOF
+			expired := !c.rdl.IsZero() && !time.Now().Before(c.rdl)
+			c.mu.Unlock()
+			if !ready && expired {
+				return 0, os.ErrDeadlineExceeded
+			}
+			if !ready {
+				// stale wake-up token (a deadline change that does not expire this read)
+				continue
+			}
 		}
 		simrt.YieldMust("netread " + c.Name())
 	}
